@@ -1,7 +1,353 @@
-//! wire interfaces of the "lv" area (see docs/AGENT_GUIDE.md for the id range)
+//! wire interfaces of the "lv" area (ids 40-49): list and vector procedures (C14).
+//!
+//! 40 npool step*      operation sequence over a pool of objects held in the globals p0, p1, ...
+//!                     step := opid nargs operand*          evaluated as (define p<k> (<op> operand...))
+//!                     operand := 0 i        the global p<i>
+//!                              | 1 s m      exact integer (sign, magnitude)
+//!                              | 2 b        boolean            | 3 c   character
+//!                              | 4 k        symbol (letter 97+k) | 5   the empty list
+//!                              | 6 bits     flonum by bit pattern
+//!                              | 7 n c*     string literal
+//!                              | 8 n d* t   quoted list literal with tail t   | 9 n d*  quoted vector literal
+//!                              | 10 f       the procedure named by op id f
+//!                     opid 0 = the operand itself.  The first npool steps are silent (pool
+//!                     construction); after every later step: status, every pool object whose
+//!                     written form changed, and the eq? row of the new object; at the end the
+//!                     full eq? matrix.
+//! 41 npool step*      as 40 but prints only the status and result of the LAST step (used for
+//!                     procedures that must terminate on circular data: list?).
+//! Both run under a watchdog: a case that hangs makes the process exit with status 3 (see `guarded`).
 #![allow(unused_imports, dead_code)]
 use crate::text::*;
+use marwood::cell::Cell;
+use marwood::number::Number;
+use marwood::vm::Vm;
+use std::panic::{catch_unwind, AssertUnwindSafe};
 
-pub fn run(_c: &[String]) -> String {
-    "BADCASE".into()
+pub const OPS: [&str; 48] = [
+    "", "cons", "car", "cdr", "set-car!", "set-cdr!", "list", "length", "append", "reverse",
+    "list-tail", "list-ref", "memq", "memv", "member", "assq", "assv", "assoc", "map", "for-each",
+    "list?", "vector", "make-vector", "vector-length", "vector-ref", "vector-set!", "vector-fill!",
+    "vector->list", "list->vector", "vector-copy", "vector-copy!", "equal?", "eq?", "eqv?",
+    "pair?", "null?", "vector?", "cadr", "cddr", "caar", "cdar", "not", "boolean?", "char?",
+    "symbol?", "string?", "procedure?", "number?",
+];
+pub const SIZE_BUDGET: i64 = 1000;
+
+struct P<'a> {
+    t: &'a [String],
+    i: usize,
+}
+impl<'a> P<'a> {
+    fn next(&mut self) -> Option<u128> {
+        let r = self.t.get(self.i)?.parse::<u128>().ok()?;
+        self.i += 1;
+        Some(r)
+    }
+    fn done(&self) -> bool {
+        self.i >= self.t.len()
+    }
+}
+
+fn sym(s: &str) -> Cell {
+    Cell::Symbol(s.into())
+}
+
+fn datum(p: &mut P, depth: usize) -> Option<Cell> {
+    if depth > 64 {
+        return None;
+    }
+    Some(match p.next()? {
+        1 => {
+            let s = p.next()?;
+            let m = p.next()?;
+            if m > i64::MAX as u128 {
+                return None;
+            }
+            Cell::Number(Number::from(if s == 1 { -(m as i64) } else { m as i64 }))
+        }
+        2 => Cell::Bool(p.next()? != 0),
+        3 => Cell::Char(char::from_u32(p.next()? as u32)?),
+        4 => {
+            let k = p.next()?;
+            if k >= 26 {
+                return None;
+            }
+            Cell::Symbol(((97 + k as u8) as char).to_string())
+        }
+        5 => Cell::Nil,
+        6 => Cell::Number(Number::from(f64::from_bits(p.next()? as u64))),
+        7 => {
+            let n = p.next()?;
+            let mut s = String::new();
+            for _ in 0..n {
+                s.push(char::from_u32(p.next()? as u32)?);
+            }
+            Cell::String(s)
+        }
+        8 => {
+            let n = p.next()?;
+            let mut v = vec![];
+            for _ in 0..n {
+                v.push(datum(p, depth + 1)?);
+            }
+            let t = datum(p, depth + 1)?;
+            if v.is_empty() {
+                t
+            } else {
+                Cell::new_improper_list(v, t)
+            }
+        }
+        9 => {
+            let n = p.next()?;
+            let mut v = vec![];
+            for _ in 0..n {
+                v.push(datum(p, depth + 1)?);
+            }
+            Cell::Vector(v)
+        }
+        _ => return None,
+    })
+}
+
+fn operand(p: &mut P) -> Option<Cell> {
+    let code = p.t.get(p.i)?.as_str();
+    if code == "0" {
+        p.i += 1;
+        let i = p.next()?;
+        Some(sym(&format!("p{}", i)))
+    } else if code == "10" {
+        p.i += 1;
+        let f = p.next()? as usize;
+        if f == 0 || f >= OPS.len() {
+            return None;
+        }
+        Some(sym(OPS[f]))
+    } else {
+        let d = datum(p, 0)?;
+        Some(Cell::new_list(vec![sym("quote"), d]))
+    }
+}
+
+fn step(p: &mut P) -> Option<Cell> {
+    let op = p.next()? as usize;
+    let n = p.next()? as usize;
+    if op >= OPS.len() || n > 64 {
+        return None;
+    }
+    let mut args = vec![];
+    for _ in 0..n {
+        args.push(operand(p)?);
+    }
+    if op == 0 {
+        if n != 1 {
+            return None;
+        }
+        return args.pop();
+    }
+    let mut v = vec![sym(OPS[op])];
+    v.extend(args);
+    Some(Cell::new_list(v))
+}
+
+/// canonical written form (independent of marwood's own printer)
+pub fn canon(c: &Cell, o: &mut String) {
+    match c {
+        Cell::Bool(true) => o.push_str("#t"),
+        Cell::Bool(false) => o.push_str("#f"),
+        Cell::Char(ch) => o.push_str(&format!("#\\x{:x}", *ch as u32)),
+        Cell::Nil => o.push_str("()"),
+        Cell::Number(Number::Fixnum(n)) => o.push_str(&n.to_string()),
+        Cell::Number(Number::Float(f)) => o.push_str(&format!("#i{:x}", f.to_bits())),
+        Cell::Number(n) => o.push_str(&format!("#n{}", n)),
+        Cell::Pair(_, _) => {
+            o.push('(');
+            let mut cur = c;
+            let mut first = true;
+            loop {
+                match cur {
+                    Cell::Pair(a, d) => {
+                        if !first {
+                            o.push(' ');
+                        }
+                        first = false;
+                        canon(a, o);
+                        cur = d;
+                    }
+                    Cell::Nil => break,
+                    other => {
+                        o.push_str(" . ");
+                        canon(other, o);
+                        break;
+                    }
+                }
+            }
+            o.push(')');
+        }
+        Cell::String(s) => {
+            o.push('"');
+            o.push_str(&esc(s));
+            o.push('"');
+        }
+        Cell::Symbol(s) => o.push_str(&esc(s)),
+        Cell::Vector(v) => {
+            o.push_str("#(");
+            for (i, x) in v.iter().enumerate() {
+                if i > 0 {
+                    o.push(' ');
+                }
+                canon(x, o);
+            }
+            o.push(')');
+        }
+        Cell::Continuation => o.push_str("#<cont>"),
+        Cell::Macro => o.push_str("#<macro>"),
+        Cell::Procedure(_) => o.push_str("#<proc>"),
+        Cell::Undefined => o.push_str("#<undef>"),
+        Cell::Void => o.push_str("#<void>"),
+    }
+}
+
+const SZ_DEF: &str = "(define (%sz x n) (cond ((< n 0) n) ((pair? x) (%sz (cdr x) (%sz (car x) (- n 1)))) \
+((vector? x) (%szv x 0 (- n 1))) (else n)))";
+const SZV_DEF: &str = "(define (%szv x i n) (if (< n 0) n (if (= i (vector-length x)) n \
+(%szv x (+ i 1) (%sz (vector-ref x i) n)))))";
+
+fn eval_text(vm: &mut Vm, s: &str) {
+    let (c, _) = marwood::parse::parse_text(s).unwrap();
+    vm.eval(&c).unwrap();
+}
+
+/// written form of the global p<i>, or #<big> when it has more than SIZE_BUDGET nodes
+/// (guards the printer against circular structures)
+fn show_obj(vm: &mut Vm, i: usize) -> String {
+    let name = format!("p{}", i);
+    let probe = Cell::new_list(vec![
+        sym("%sz"),
+        sym(&name),
+        Cell::Number(Number::from(SIZE_BUDGET)),
+    ]);
+    match vm.eval(&probe) {
+        Ok(Cell::Number(Number::Fixnum(n))) if n >= 0 => {}
+        _ => return "#<big>".into(),
+    }
+    match vm.eval(&sym(&name)) {
+        Ok(c) => {
+            let mut o = String::new();
+            canon(&c, &mut o);
+            o
+        }
+        Err(_) => "#<unbound>".into(),
+    }
+}
+
+fn eq_probe(vm: &mut Vm, i: usize, j: usize) -> char {
+    let e = Cell::new_list(vec![sym("eq?"), sym(&format!("p{}", i)), sym(&format!("p{}", j))]);
+    match vm.eval(&e) {
+        Ok(Cell::Bool(true)) => '1',
+        Ok(Cell::Bool(false)) => '0',
+        _ => '?',
+    }
+}
+
+fn run_seq(c: &[String], last_only: bool) -> String {
+    let mut p = P { t: c, i: 1 };
+    let npool = match p.next() {
+        Some(n) => n as usize,
+        None => return "BADCASE".into(),
+    };
+    let mut steps = vec![];
+    while !p.done() {
+        match step(&mut p) {
+            Some(s) => steps.push(s),
+            None => return "BADCASE".into(),
+        }
+    }
+    let mut vm = Vm::new();
+    eval_text(&mut vm, SZ_DEF);
+    eval_text(&mut vm, SZV_DEF);
+    let mut out = String::from("S");
+    let mut last: Vec<String> = vec![];
+    let nsteps = steps.len();
+    for (k, expr) in steps.into_iter().enumerate() {
+        let def = Cell::new_list(vec![sym("define"), sym(&format!("p{}", k)), expr]);
+        let r = catch_unwind(AssertUnwindSafe(|| vm.eval(&def)));
+        let status = match r {
+            Ok(Ok(_)) => "OK",
+            Ok(Err(_)) => {
+                let d = Cell::new_list(vec![sym("define"), sym(&format!("p{}", k)), Cell::Bool(false)]);
+                let _ = vm.eval(&d);
+                "ERR"
+            }
+            Err(_) => {
+                out.push_str(" | PANIC");
+                return out;
+            }
+        };
+        if last_only {
+            if k + 1 == nsteps {
+                out.push_str(&format!(" | {} {}", status, show_obj(&mut vm, k)));
+            }
+            continue;
+        }
+        if k < npool {
+            continue;
+        }
+        out.push_str(" | ");
+        out.push_str(status);
+        for i in 0..=k {
+            let s = show_obj(&mut vm, i);
+            if i >= last.len() {
+                last.push(String::new());
+                out.push_str(&format!(" {}={}", i, s));
+                last[i] = s;
+            } else if last[i] != s {
+                out.push_str(&format!(" {}={}", i, s));
+                last[i] = s;
+            }
+        }
+        out.push_str(" E");
+        for i in 0..k {
+            out.push(eq_probe(&mut vm, k, i));
+        }
+    }
+    if !last_only {
+        out.push_str(" | F");
+        for i in 0..nsteps {
+            out.push(' ');
+            for j in 0..i {
+                out.push(eq_probe(&mut vm, i, j));
+            }
+        }
+    }
+    out
+}
+
+/// Runs one case on a worker thread.  A case that does not finish within the limit is a hang of
+/// the implementation (e.g. `length` on a list that a defective procedure made circular): the
+/// thread cannot be stopped, so the whole process exits with status 3 WITHOUT printing; the runner
+/// then replays the shard case by case and records `ABORT(3)` for the hanging one.
+fn guarded(c: &[String], last_only: bool, limit_s: u64) -> String {
+    let owned: Vec<String> = c.to_vec();
+    let (tx, rx) = std::sync::mpsc::channel();
+    std::thread::Builder::new()
+        .stack_size(256 << 20)
+        .spawn(move || {
+            let r = catch_unwind(AssertUnwindSafe(|| run_seq(&owned, last_only)));
+            let _ = tx.send(r.unwrap_or_else(|_| "PANIC".into()));
+        })
+        .unwrap();
+    match rx.recv_timeout(std::time::Duration::from_secs(limit_s)) {
+        Ok(s) => s,
+        Err(_) => std::process::exit(3),
+    }
+}
+
+pub fn run(c: &[String]) -> String {
+    let id: u64 = c[0].parse().unwrap_or(0);
+    match id {
+        40 => guarded(c, false, 4),
+        41 => guarded(c, true, 4),
+        _ => "BADCASE".into(),
+    }
 }
